@@ -294,7 +294,7 @@ API_CHECKS = {
     "C08": [("plain", "frames", "C08", 6, 9)],
     "C09": [("plain", "params", "C09", 3, 5)],
     "C10": [("plain", "mut", "C10", 6, 8), ("plain", "c07", "C10", 6, 8), ("plain", "params", "C10", 3, 4)],
-    "C11": [("plain", "lookup", "C11", 7, 10)],
+    "C11": [("plain", "lookup", "C11", 6, 9)],
     "C01": [("plain", "build", "C01", 4, 6)],
     "C03": [("plain", "build", "C03", 4, 6)],
 }
@@ -304,6 +304,15 @@ def check_api(prop, tier, deadline):
     rep = Report(prop, tier, "model_checking")
     runs = []
     table = None
+    sweep = None
+    if prop in ("C01", "C03"):
+        sweep = run_misc("residue", tier)
+        log(f"[residue] cases={sweep['cases']} distinct_residues={sweep['distinct_residues']} crashed={len(sweep['crashed'])}")
+        for v in sweep["violations"]:
+            if v["prop"] == prop:
+                rep.add(v["sig"], v["detail"], {"engine": "misc", "mode": "residue", "tier": tier, "input": v["case"]}, v["count"])
+        for c in sweep["crashed"]:
+            rep.add("crash/residue_sweep", "worker died on " + c, {"engine": "misc", "mode": "residue", "tier": tier, "input": c})
     if prop == "C09":
         table = run_misc("setters", tier)
         for v in table["violations"]:
@@ -315,6 +324,10 @@ def check_api(prop, tier, deadline):
         runs.append(d)
         shutil.rmtree(d["_scratch"], ignore_errors=True)
     rep.coverage = cov_from_api(runs)
+    if sweep:
+        rep.coverage["residue_sweep"] = {"objects": sweep["done"], "bases": sweep["bases"], "distinct_residues_of_section_length_mod_512": sweep["distinct_residues"], "samples": sweep["samples"],
+                                         "rule": "filler parameters grow the parameter section one byte at a time over 1024 consecutive lengths per base object; each object saved, reference-decoded, reloaded, compared"}
+        rep.coverage["evaluations"] += sweep["done"]
     if table:
         rep.coverage["setter_table"] = {k: table[k] for k in ("shapes", "evaluations", "expected_accept", "expected_refuse", "samples")}
     rep.assumptions = ["the public accessors expose every field that influences a later public call (state hash soundness; checked by the replay-divergence assertion on every transition)",
